@@ -73,6 +73,8 @@ structure GoodCfg (c : Cfg) : Prop where
   listBreaks : c.listBreaks = true
   stops : StopsAtEof c.skipCond
   skips : SkipsOther c.skipCond
+  /-- the sign case does not call `parseValue`: a run of signs is no recursion -/
+  signIterative : c.signRecursive = false
 
 /-- an outcome is a value or carries at least one error -/
 def Outcome.valueOrError : Outcome → Prop
@@ -124,7 +126,7 @@ omit hg in
 theorem toJSONToks_sat (fuel : Nat) (s : PS) (hm : s.m + 2 ≤ fuel) :
     (toJSONToks c fuel s).Sat Outcome.valueOrError := by
   unfold toJSONToks
-  refine (parseValue_spec c hc.errMax_pos hc.listBreaks fuel 0 s hm).bind ?_
+  refine (parseValue_spec c hc.errMax_pos hc.listBreaks hc.signIterative fuel 0 s hm).bind ?_
   intro s' _
   exact .ok (outcomeOf_valueOrError _ _ _)
 
@@ -132,7 +134,7 @@ omit hg in
 theorem decodeToks_sat (fuel : Nat) (s : PS) (hm : s.m + 2 ≤ fuel) :
     (decodeToks c fuel s).Sat Outcome.valueOrError := by
   unfold decodeToks
-  refine (parseValue_spec c hc.errMax_pos hc.listBreaks fuel 0 s hm).bind ?_
+  refine (parseValue_spec c hc.errMax_pos hc.listBreaks hc.signIterative fuel 0 s hm).bind ?_
   intro s' _
   split
   · exact .ok trivial
@@ -142,7 +144,7 @@ omit hg in
 theorem seriesToks_sat (fuel : Nat) (s : PS) (hm : s.m + 2 ≤ fuel) :
     (seriesToks c fuel s).Sat Outcome.valueOrError := by
   unfold seriesToks
-  refine (parseSeries_spec c hc.errMax_pos hc.listBreaks hc.stops hc.skips fuel s hm).bind ?_
+  refine (parseSeries_spec c hc.errMax_pos hc.listBreaks hc.signIterative hc.stops hc.skips fuel s hm).bind ?_
   intro r _
   exact .ok (outcomeOf_valueOrError _ _ _)
 
